@@ -34,14 +34,14 @@ PROPS = {
     "C08": dict(level="proof", trusted=_COMMON_TRUST + [
         "ModInt reading: integers in the field classes are interpreted through the ring homomorphism Z -> Z/p with a tracked 'reduced' flag (DESIGN section 4 L1)"],
         assumptions=["class invariant: field_modulus is prime (for user instantiations); for the real curves: primality by certificate: Pocklington certificates (certs/primes.json, verified on every run by the closed fact primes.certificates) for secp256k1 P and N, alt_bn128 p and r, BLS12-381 p and r (the 448-bit factor of h2, used only for the point count of the twist, passes Miller-Rabin to 40 bases without a certificate)",
-                     "class invariant: the modulus polynomial is irreducible and its integer coefficients are 0 or not multiples of p",
+                     "class invariant (precondition on user instantiations): the modulus polynomial is irreducible and its integer coefficients are 0 or not multiples of p; for the eight real extension classes irreducibility is the closed fact fields.modulus-irreducible (Rabin's test on the coefficients and prime read from the classes, every run)",
                      "FQP.inv: the quotient computed by (optimized_)poly_rounded_div enters only through its contract (length, degree, leading coefficient); the exit fact 'low != 0 unless self = 0' is the Lean lemma Euclid.lean:inv_exit_ne_zero applied to the proved invariants",
                      "FQ.__eq__/__lt__ with an int operand compare the canonical representative with the integer as given (recorded reading, DESIGN section 8 C08)"],
         text="Every operator of FQ and FQP/FQ2/FQ12 in both files is executed symbolically from the real source with a SYMBOLIC prime and SYMBOLIC modulus coefficients (d = 2 and d = 12) and proved to return a valid (reduced) object of type(self) whose abstract value is the ring operation on the abstract values, with TypeError exactly for rejected operand kinds; multiplication's reduction loop is proved by a loop invariant per iteration under the relation M(W) = 0, ** by a loop invariant over an abstract commutative ring for every n >= 0, FQP.inv (the extended Euclid with truncated products) by a loop contract — invariants lm*A = low, hm*A = high modulo M, lm*high - hm*low = +-M exactly, degree bounds that make the truncation exact, a termination measure — instantiated for every degree pair (d = 2 and d = 12, both files; FQ2.inv additionally by complete path enumeration), prime_field_inv by a z3 loop invariant with congruence witnesses. Field axioms then follow from the ring being Z/p resp. (Z/p)[W]/(M) (Lean L-ZMOD).",
-        note="FQ12.inv is proved by the loop contract (the former bounded monitor is kept as an extra run-time cross-check under bounded_standins). Primality/irreducibility are class invariants (assumed). Comparison operators with int operands follow the recorded reading.",
+        note="FQ12.inv is proved by the loop contract (the former bounded monitor is kept as an extra run-time cross-check under bounded_standins). Primality/irreducibility are class invariants: preconditions for user instantiations, certificates (primes.certificates) and Rabin's test (fields.modulus-irreducible) for the real classes. Comparison operators with int operands follow the recorded reading.",
         design_ref="DESIGN.md section 8 C08"),
     "C14": dict(level="proof", trusted=_COMMON_TRUST, assumptions=[
-        "as C08 (same units): primality, irreducibility",
+        "as C08 (same units): primality and irreducibility are preconditions for user instantiations; certified / tested (Rabin) for the real classes",
         "operand kinds accepted by only one of the two files (reference FQP * FQ) are outside 'the same expression evaluated in both'"],
         text="Reference and optimized classes are verified against the same abstract contract by the same unit code (C08); the simulation lemma (R-preservation, canonical representatives equal) then gives equal values for every expression tree; sgn0 of the optimized classes is proved equal to the RFC 9380 section 4.1 definition for all elements (z3).",
         note="Same assumptions as C08.",
